@@ -807,8 +807,9 @@ Proof.
   cbn [answersb] in H. apply andb_true_iff in H. destruct H as [A B]. split; [|auto].
   intros t Ht. rewrite Ht in A. apply existsb_exists in A. destruct A as [r' [Hin Hr']].
   exists r'. split; [assumption|].
-  destruct (r_ev r') as [| ta [[v|] | |] | |]; try discriminate.
-  apply andb_true_iff in Hr'. destruct Hr' as [P Q]. exists ta, v. repeat split; lia.
+  destruct (r_ev r') as [| ta [[v|] | |] | |] eqn:Ev; try discriminate.
+  apply andb_true_iff in Hr'. destruct Hr' as [P Q]. bool_lia. exists ta, v.
+  split; [exact Ev|]. split; lia.
 Qed.
 
 Example live_peer_nonvacuous :
